@@ -15,11 +15,11 @@ package keeper
 //@ accessor get (Keeper) GetAccountList AccountList(did)
 //@ accessor set (Keeper) SetAccountList AccountList(accountList.Did) accountList
 //@ accessor del (Keeper) RemoveAccountList AccountList(did)
-//@ store Did kv=did/Did/value/ key=did_DidKey val=github.com/SaoNetwork/sao/x/did/types.Did
+//@ store Did kv=did/Did/value/ key=did_DidKey val=github.com/SaoNetwork/sao/x/did/types.Did keyfield=AccountId
 //@ accessor get (Keeper) GetDid Did(accountId)
 //@ accessor set (Keeper) SetDid Did(did.AccountId) did
 //@ accessor del (Keeper) RemoveDid Did(accountId)
-//@ store DidBalances kv=did/DidBalances/value/ key=did_DidBalancesKey val=github.com/SaoNetwork/sao/x/did/types.DidBalances
+//@ store DidBalances kv=did/DidBalances/value/ key=did_DidBalancesKey val=github.com/SaoNetwork/sao/x/did/types.DidBalances keyfield=Did
 //@ accessor get (Keeper) GetDidBalances DidBalances(did)
 //@ accessor set (Keeper) SetDidBalances DidBalances(didBalances.Did) didBalances
 //@ accessor del (Keeper) RemoveDidBalances DidBalances(did)
@@ -31,7 +31,7 @@ package keeper
 //@ accessor get (Keeper) GetPastSeeds PastSeeds(did)
 //@ accessor set (Keeper) SetPastSeeds PastSeeds(pastSeeds.Did) pastSeeds
 //@ accessor del (Keeper) RemovePastSeeds PastSeeds(did)
-//@ store PaymentAddress kv=did/PaymentAddress/value/ key=did_PaymentAddressKey val=github.com/SaoNetwork/sao/x/did/types.PaymentAddress
+//@ store PaymentAddress kv=did/PaymentAddress/value/ key=did_PaymentAddressKey val=github.com/SaoNetwork/sao/x/did/types.PaymentAddress keyfield=Did
 //@ accessor get (Keeper) GetPaymentAddress PaymentAddress(did)
 //@ accessor set (Keeper) SetPaymentAddress PaymentAddress(paymentAddress.Did) paymentAddress
 //@ accessor del (Keeper) RemovePaymentAddress PaymentAddress(did)
